@@ -1333,6 +1333,13 @@ func (c *FnCtx) execConvert(st *State, in *ssa.Convert) Val {
 	case isInteger(from) && isFloat(to):
 		return VReal{app("to_real", x.(VInt).T)}
 	case isFloat(from) && isFloat(to):
+		if fb, ok := from.Underlying().(*types.Basic); ok && c.wantsKind("conv") {
+			if tb, ok := to.Underlying().(*types.Basic); ok && fb.Kind() == types.Float64 && tb.Kind() == types.Float32 {
+				// opt-in: floats are modelled as reals, "representable as float32" is not expressible: a reachable
+				// narrowing conversion is reported (it rounds, and overflows to infinity beyond the float32 range)
+				c.oblige(st, "conv", c.anchor(in), in.Pos(), "false", "conversion float64 -> float32 rounds the value and overflows to infinity beyond the float32 range", nil)
+			}
+		}
 		return x
 	case isFloat(from) && isInteger(to):
 		if c.wantsKind("conv") {
